@@ -16,6 +16,7 @@ import (
 
 	"verif/harness/internal/dom"
 	"verif/harness/internal/pbt"
+	"verif/harness/internal/via"
 )
 
 func TestMain(m *testing.M) { pbt.Main(m, "C09") }
@@ -270,9 +271,8 @@ func checkK[K comparable](c Case, mk func(int) K, text func(K) string) (pbt.Info
 			var sb strings.Builder
 			for j, x := range op.Ks {
 				k := mk(x)
-				if isMap && idx(k) >= 0 {
-					continue // no duplicate member names
-				}
+				// a repeated member name (adjacent or not) is what repeated Put would
+				// make of it: the key keeps its first position and takes the last value
 				put(k, 100+j)
 				if sb.Len() > 0 {
 					sb.WriteByte(',')
@@ -289,17 +289,47 @@ func checkK[K comparable](c Case, mk func(int) K, text func(K) string) (pbt.Info
 			}
 			var lerr error
 			if isMap {
-				lerr = m.FromJSON([]byte("{" + sb.String() + "}"))
+				lerr = via.Auto(m, []byte("{"+sb.String()+"}"))
 			} else {
 				for j := range model {
 					model[j].v = 0
 				}
-				lerr = s.FromJSON([]byte("[" + sb.String() + "]"))
+				lerr = via.Auto(s, []byte("["+sb.String()+"]"))
 			}
 			if lerr != nil {
 				return info, fmt.Errorf("step %d: FromJSON(%s) failed: %v", i, sb.String(), lerr)
 			}
 			info.Label("load")
+			// Where a member name is repeated with other names in between, its place
+			// (first or last occurrence) is not pinned down by the property: the
+			// enumeration must still hold exactly the denoted keys, once each, and the
+			// model then adopts the container's choice.
+			if isMap {
+				apart := false
+				for a, x := range op.Ks {
+					for b := a + 2; b < len(op.Ks); b++ {
+						if op.Ks[b] == x && slices.ContainsFunc(op.Ks[a+1:b], func(y int) bool { return y != x }) {
+							apart = true
+						}
+					}
+				}
+				if apart {
+					info.Label("load:repeated-member-name")
+					got := m.Keys()
+					if len(got) != len(model) {
+						return info, fmt.Errorf("step %d: after FromJSON({%s}) Keys()=%v, the document denotes %d distinct keys", i, sb.String(), got, len(model))
+					}
+					var adopted []pair[K]
+					for _, k := range got {
+						j := idx(k)
+						if j < 0 || slices.ContainsFunc(adopted, func(p pair[K]) bool { return p.k == k }) {
+							return info, fmt.Errorf("step %d: after FromJSON({%s}) Keys()=%v lists a key twice or a key the document does not denote", i, sb.String(), got)
+						}
+						adopted = append(adopted, model[j])
+					}
+					model = adopted
+				}
+			}
 		default:
 			return info, fmt.Errorf("bad op %q", op.O)
 		}
@@ -375,7 +405,7 @@ func genSoak(kind string) func(t *rapid.T) Case {
 	return func(t *rapid.T) Case {
 		c := Case{Kind: kind, Keys: "int"}
 		keys := rapid.IntRange(3, 14).Draw(t, "keys")
-		n := rapid.IntRange(300, 1000).Draw(t, "n")
+		n := rapid.IntRange(300, pbt.Size(1000)).Draw(t, "n")
 		pattern := rapid.SliceOfN(rapid.IntRange(0, 5), 4, 12).Draw(t, "pattern")
 		for i := 0; i < n; i++ {
 			switch pattern[i%len(pattern)] {
